@@ -4,6 +4,7 @@ package c06
 import (
 	"encoding/hex"
 	"fmt"
+	"iter"
 	"sort"
 	"strconv"
 	"strings"
@@ -24,7 +25,17 @@ const Rule = "cases = (implementation, op sequence) drawn from VERIF_SEED, every
 	"that stop at every count, AnyMatch/AllMatch/FirstMatch/SelectMatch/PartitionMatch with predicates on keys and " +
 	"values (result tries dumped and used as operands), Equal on copies differing in a value or a key, Height, IsEmpty; " +
 	"Put/Get/Delete of the empty key (binary trie: documented panic; Patricia trie: Model comparison only); " +
-	"every insertion order of small key sets; a state dump after every mutator; non-trivial = the history deletes (Delete/DeleteMin/DeleteMax) a " +
+	"every insertion order of small key sets; a state dump after every mutator; threshold sweeps (stream=keylen, stream=nkeys): keys of " +
+	"L-1, L, L+1, L+2 bytes that are prefixes of each other (plus a sibling differing in byte L) for L = 1, 2, 63-65, 255-257, 1023-1025 " +
+	"with WithPrefix / LongestPrefixOf / Match arguments of L-2 ... L+3 bytes and wildcards at positions 62-65, 254-257, L-2 ... L and from " +
+	"position 64 on, and tries of N-1 ... N+2 keys for N = 0, 1, 2, 63-65, 255-257, 1023-1025, 4096, each queried at the ranks around every " +
+	"threshold, shrunk below the size and grown past it again (quick tier: the sizes 1, 2, 64, 256, 1024, which contain their neighbours); " +
+	"65536 keys (thorough: 65535, 65536, 65537, 70000): binary trie against its Model, Patricia trie judged by the oracle only (its " +
+	"executable Model copies the node array on every Put); keys of 65536 bytes (thorough: 65535 ... 70000): both tries judged by the oracle " +
+	"only (both Models rebuild keys byte by byte), the binary trie with Put/Get/Delete/Size/Height only in the quick tier (one walk of the " +
+	"real code over a 64 KiB key takes a second); every slice a query returns is overwritten and appended to by the caller before the " +
+	"next op; all2 = All() run twice, nested inside another iteration, and through two pull iterators advanced alternately (one abandoned " +
+	"half-way); equalself = t.Equal(t); non-trivial = the history deletes (Delete/DeleteMin/DeleteMax) a " +
 	"held key that is a proper prefix or a proper extension of another held key; distinct = distinct (header, op list)"
 
 type kv struct {
@@ -73,33 +84,54 @@ func fromKVs(l []generic.KeyValue[string, int]) []kv {
 // ---------------------------------------------------------------- oracle: sorted slice of strings + values
 
 type oracle struct {
-	keys []string // ascending (Go string order = lexicographic on bytes)
-	val  map[string]int
+	raw   []string // the held keys; ascending (Go string order = lexicographic on bytes) unless dirty
+	dirty bool
+	val   map[string]int
+	trim  map[string]int // number of held keys per key-with-trailing-0x00-bytes-removed
+	bytes int            // total length of the held keys
 }
 
-func newOracle() *oracle { return &oracle{val: map[string]int{}} }
+func newOracle() *oracle { return &oracle{val: map[string]int{}, trim: map[string]int{}} }
+
+// ks: the held keys in ascending order (sorted on demand, so that loading n keys costs n log n)
+func (o *oracle) ks() []string {
+	if o.dirty {
+		sort.Strings(o.raw)
+		o.dirty = false
+	}
+	return o.raw
+}
 
 func (o *oracle) put(k string, v int) {
 	if _, ok := o.val[k]; !ok {
-		i := sort.SearchStrings(o.keys, k)
-		o.keys = append(o.keys, "")
-		copy(o.keys[i+1:], o.keys[i:])
-		o.keys[i] = k
+		if n := len(o.raw); n > 0 && o.raw[n-1] >= k {
+			o.dirty = true
+		}
+		o.raw = append(o.raw, k)
+		o.trim[trimNul(k)]++
+		o.bytes += len(k)
 	}
 	o.val[k] = v
 }
 
 func (o *oracle) del(k string) {
 	if _, ok := o.val[k]; ok {
-		i := sort.SearchStrings(o.keys, k)
-		o.keys = append(o.keys[:i], o.keys[i+1:]...)
+		keys := o.ks()
+		i := sort.SearchStrings(keys, k)
+		o.raw = append(keys[:i], keys[i+1:]...)
 		delete(o.val, k)
+		if t := trimNul(k); o.trim[t] <= 1 {
+			delete(o.trim, t)
+		} else {
+			o.trim[t]--
+		}
+		o.bytes -= len(k)
 	}
 }
 
 func (o *oracle) filter(p func(string) bool) []kv {
 	out := []kv{}
-	for _, k := range o.keys {
+	for _, k := range o.ks() {
 		if p(k) {
 			out = append(out, kv{k, o.val[k]})
 		}
@@ -123,27 +155,35 @@ func trimNul(s string) string { return strings.TrimRight(s, "\x00") }
 
 // nulClash: some held key differs from k only by trailing 0x00 bytes.
 func (o *oracle) nulClash(k string) bool {
-	for _, h := range o.keys {
-		if h != k && trimNul(h) == trimNul(k) {
-			return true
-		}
+	c := o.trim[trimNul(k)]
+	if _, held := o.val[k]; held {
+		c--
 	}
-	return false
+	return c > 0
 }
 
 // related: some other held key is a proper prefix / proper extension of k.
 func (o *oracle) related(k string) (hasPrefix, hasExt bool) {
-	for _, h := range o.keys {
-		if h == k {
-			continue
+	keys := o.ks()
+	if len(keys) <= len(k) {
+		for _, h := range keys {
+			if h != k && strings.HasPrefix(k, h) {
+				hasPrefix = true
+			}
 		}
-		if strings.HasPrefix(k, h) {
-			hasPrefix = true
-		}
-		if strings.HasPrefix(h, k) {
-			hasExt = true
+	} else {
+		for n := 0; n < len(k); n++ {
+			if _, held := o.val[k[:n]]; held {
+				hasPrefix = true
+			}
 		}
 	}
+	// the extensions of k follow k immediately in ascending order
+	i := sort.SearchStrings(keys, k)
+	if i < len(keys) && keys[i] == k {
+		i++
+	}
+	hasExt = i < len(keys) && strings.HasPrefix(keys[i], k)
 	return
 }
 
@@ -208,6 +248,7 @@ func Exec(c hx.Case) hx.Result {
 		}
 	}
 	key := func(s string) string { k, _ := dec(s); return k }
+	long := len(c.Ops) > 3000 // a sweep over the number of keys
 
 	for i, op := range c.Ops {
 		f := strings.Fields(op)
@@ -218,7 +259,13 @@ func Exec(c hx.Case) hx.Result {
 		emptyHeld = e1 || e2
 		expectPanic := false // Put/Get/Delete("") on the binary trie: documented panic; the property is about non-empty keys
 		var kind string
-		finished := hx.WithTimeout(5*time.Second, func() {
+		// every op runs under a watchdog of its own, except the Puts of a case that loads thousands of keys (a goroutine
+		// and a timer per op; the case as a whole still runs under the watchdog of hx.Run.Do)
+		watch := hx.WithTimeout
+		if long && strings.HasPrefix(op, "put ") {
+			watch = func(_ time.Duration, f func()) bool { f(); return true }
+		}
+		finished := watch(5*time.Second, func() {
 			kind = hx.Try(func() {
 				if len(f) == 0 {
 					return
@@ -287,11 +334,11 @@ func Exec(c hx.Case) hx.Result {
 				case "deletemin", "deletemax":
 					mutator = true
 					var wk string
-					wok := len(o.keys) > 0
+					wok := len(o.ks()) > 0
 					if wok {
-						wk = o.keys[0]
+						wk = o.ks()[0]
 						if f[0] == "deletemax" {
-							wk = o.keys[len(o.keys)-1]
+							wk = o.ks()[len(o.ks())-1]
 						}
 						p, e := o.related(wk)
 						if p {
@@ -325,8 +372,8 @@ func Exec(c hx.Case) hx.Result {
 				case "size":
 					n := t.Size()
 					out = "ok " + strconv.Itoa(n)
-					if n != len(o.keys) {
-						bad(i, "", "Size() = %d, sorted map holds %d keys", n, len(o.keys))
+					if n != len(o.ks()) {
+						bad(i, "", "Size() = %d, sorted map holds %d keys", n, len(o.ks()))
 					}
 				case "min", "max":
 					var k string
@@ -338,12 +385,12 @@ func Exec(c hx.Case) hx.Result {
 						k, v, ok = t.Max()
 					}
 					out = showKV(k, v, ok)
-					wok := len(o.keys) > 0
+					wok := len(o.ks()) > 0
 					var wk string
 					if wok {
-						wk = o.keys[0]
+						wk = o.ks()[0]
 						if f[0] == "max" {
-							wk = o.keys[len(o.keys)-1]
+							wk = o.ks()[len(o.ks())-1]
 						}
 					}
 					if ok != wok || (ok && (k != wk || v != o.val[wk])) {
@@ -358,15 +405,15 @@ func Exec(c hx.Case) hx.Result {
 					var wok bool
 					if f[0] == "floor" {
 						k, v, ok = t.Floor(a)
-						j := sort.Search(len(o.keys), func(j int) bool { return o.keys[j] > a })
+						j := sort.Search(len(o.ks()), func(j int) bool { return o.ks()[j] > a })
 						if j > 0 {
-							wk, wok = o.keys[j-1], true
+							wk, wok = o.ks()[j-1], true
 						}
 					} else {
 						k, v, ok = t.Ceiling(a)
-						j := sort.SearchStrings(o.keys, a)
-						if j < len(o.keys) {
-							wk, wok = o.keys[j], true
+						j := sort.SearchStrings(o.ks(), a)
+						if j < len(o.ks()) {
+							wk, wok = o.ks()[j], true
 						}
 					}
 					out = showKV(k, v, ok)
@@ -377,10 +424,10 @@ func Exec(c hx.Case) hx.Result {
 					r, _ := strconv.Atoi(f[1])
 					k, v, ok := t.Select(r)
 					out = showKV(k, v, ok)
-					wok := r >= 0 && r < len(o.keys)
+					wok := r >= 0 && r < len(o.ks())
 					var wk string
 					if wok {
-						wk = o.keys[r]
+						wk = o.ks()[r]
 					}
 					if ok != wok || (ok && (k != wk || v != o.val[wk])) {
 						bad(i, "", "Select(%d) = (%q,%d,%v), sorted map gives (%q,%v)", r, k, v, ok, wk, wok)
@@ -392,14 +439,16 @@ func Exec(c hx.Case) hx.Result {
 					if _, held := o.val[a]; !held {
 						tags["rank-absent"] = true
 					}
-					if w := sort.SearchStrings(o.keys, a); n != w {
+					if w := sort.SearchStrings(o.ks(), a); n != w {
 						bad(i, "", "Rank(%q) = %d, %d held keys are smaller", a, n, w)
 					}
 				case "range", "rangesize":
 					lo, hi := key(f[1]), key(f[2])
 					want := o.filter(func(k string) bool { return lo <= k && k <= hi })
 					if f[0] == "range" {
-						got := fromKVs(t.Range(lo, hi))
+						res := t.Range(lo, hi)
+						got := fromKVs(res)
+						scribble(res)
 						out = showList(got)
 						if !sameList(got, want) {
 							bad(i, "", "Range(%q,%q) = %v, sorted map gives %v", lo, hi, got, want)
@@ -420,9 +469,61 @@ func Exec(c hx.Case) hx.Result {
 					if want := o.filter(func(string) bool { return true }); !sameList(got, want) {
 						bad(i, "", "All() = %v, sorted map gives %v (ascending)", got, want)
 					}
+				case "all2":
+					// the iterator sequence obtained once and run twice; a complete iteration nested inside the first step
+					// of another; two pull iterators advanced alternately, the second one abandoned half-way
+					seq := t.All()
+					got := collect(seq)
+					out = showList(got)
+					want := o.filter(func(string) bool { return true })
+					tags["all2"] = true
+					if !sameList(got, want) {
+						bad(i, "", "All() = %v, sorted map gives %v (ascending)", got, want)
+					} else if again := collect(seq); !sameList(again, want) {
+						bad(i, "", "the sequence returned by All(), run a second time, yields %v, sorted map gives %v", again, want)
+					} else {
+						var outer, inner []kv
+						for k, v := range t.All() {
+							if len(outer) == 0 {
+								inner = collect(t.All())
+							}
+							outer = append(outer, kv{k, v})
+						}
+						if !sameList(outer, want) || !sameList(inner, want) {
+							bad(i, "", "an iteration of All() nested in the first step of another: outer %v, inner %v, sorted map gives %v", outer, inner, want)
+						}
+						next1, stop1 := iter.Pull2(seq)
+						next2, stop2 := iter.Pull2(t.All())
+						var l1, l2 []kv
+						for {
+							k1, v1, ok1 := next1()
+							if !ok1 {
+								break
+							}
+							l1 = append(l1, kv{k1, v1})
+							if len(l2) < len(want)/2 {
+								if k2, v2, ok2 := next2(); ok2 {
+									l2 = append(l2, kv{k2, v2})
+								}
+							}
+						}
+						stop2()
+						stop1()
+						if !sameList(l1, want) || !sameList(l2, want[:len(l2)]) || len(l2) != len(want)/2 {
+							bad(i, "", "two pull iterators over All() advanced alternately yield %v and (stopped half-way) %v, sorted map gives %v", l1, l2, want)
+						}
+					}
+				case "equalself":
+					e := t.Equal(t)
+					out = "ok " + strconv.FormatBool(e)
+					if !e {
+						bad(i, "", "t.Equal(t) = false")
+					}
 				case "withprefix":
 					p := key(f[1])
-					got := fromKVs(t.WithPrefix(p))
+					res := t.WithPrefix(p)
+					got := fromKVs(res)
+					scribble(res)
 					out = showList(got)
 					want := o.filter(func(k string) bool { return strings.HasPrefix(k, p) })
 					if len(want) > 1 {
@@ -449,7 +550,9 @@ func Exec(c hx.Case) hx.Result {
 					}
 				case "match":
 					pat := key(f[1])
-					got := fromKVs(t.Match(pat))
+					res := t.Match(pat)
+					got := fromKVs(res)
+					scribble(res)
 					out = showList(got)
 					want := o.filter(func(k string) bool { return matches(pat, k) })
 					if strings.Contains(pat, "*") {
@@ -466,20 +569,20 @@ func Exec(c hx.Case) hx.Result {
 				case "isempty":
 					e := t.IsEmpty()
 					out = "ok " + strconv.FormatBool(e)
-					if e != (len(o.keys) == 0) {
-						bad(i, "", "IsEmpty() = %v, sorted map holds %d keys", e, len(o.keys))
+					if e != (len(o.ks()) == 0) {
+						bad(i, "", "IsEmpty() = %v, sorted map holds %d keys", e, len(o.ks()))
 					}
 				case "height":
 					h := t.Height()
 					out = "ok " + strconv.Itoa(h)
 					want := 0
 					if comp == "binary" {
-						want = binaryHeight(o.keys)
+						want = binaryHeight(o.ks())
 					} else {
-						want = critbitHeight(o.keys)
+						want = critbitHeight(o.ks())
 					}
 					if h != want {
-						bad(i, "", "Height() = %d, the trie of the held keys %q has height %d", h, o.keys, want)
+						bad(i, "", "Height() = %d, the trie of the held keys %q has height %d", h, o.ks(), want)
 					}
 				case "traverse":
 					ord, named := orderByName[f[1]]
@@ -504,11 +607,11 @@ func Exec(c hx.Case) hx.Result {
 					if f[0] == "anymatch" {
 						got, want = t.AnyMatch(p), nsat > 0
 					} else {
-						got, want = t.AllMatch(p), nsat == len(o.keys)
+						got, want = t.AllMatch(p), nsat == len(o.ks())
 					}
 					out = "ok " + strconv.FormatBool(got)
 					if got != want {
-						bad(i, "", "%s(%s) = %v, %d of the %d held pairs satisfy it", f[0], f[1], got, nsat, len(o.keys))
+						bad(i, "", "%s(%s) = %v, %d of the %d held pairs satisfy it", f[0], f[1], got, nsat, len(o.ks()))
 					}
 				case "firstmatch":
 					p := parsePred(f[1])
@@ -545,8 +648,8 @@ func Exec(c hx.Case) hx.Result {
 				case "equal":
 					e := t.Equal(tb)
 					out = "ok " + strconv.FormatBool(e)
-					want := len(o.keys) == len(ob.keys)
-					for _, k := range o.keys {
+					want := len(o.ks()) == len(ob.ks())
+					for _, k := range o.ks() {
 						if v, held := ob.val[k]; !held || v != o.val[k] {
 							want = false
 						}
@@ -558,7 +661,7 @@ func Exec(c hx.Case) hx.Result {
 				case "equalother":
 					// a trie of the other implementation holding the same pairs: Equal is about tries of the same kind
 					x := otherTrie()
-					for _, k := range o.keys {
+					for _, k := range o.ks() {
 						if k != "" {
 							x.Put(k, o.val[k])
 						}
@@ -590,7 +693,10 @@ func Exec(c hx.Case) hx.Result {
 		// The package's own verify() is consulted for the binary trie only: for the Patricia trie it rejects valid
 		// tries (bitString.Sub returns the empty string when asked for more bits than the key has, so
 		// _isPatricia fails as soon as a held key is shorter than a bit position on its path, e.g. {"bbaab","b"}).
-		if mutator && res.BadOp < 0 && comp == "binary" {
+		// verify() costs two Selects and two Ranks per held key, each a walk that rebuilds every key: it is asked after
+		// every mutator while the trie is small (not while a sweep case loads its thousands of keys), at every 1024th op
+		// while it is of medium size, and not above that.
+		if mutator && res.BadOp < 0 && comp == "binary" && ((o.bytes <= 600 && !long) || (o.bytes <= 8192 && i%1024 == 0)) {
 			ok := true
 			if k := hx.Try(func() { ok = trie.VerifVerify(t) }); k != "" || !ok {
 				bad(i, "", "the package's own invariant check verify() fails after %s", op)
@@ -602,6 +708,30 @@ func Exec(c hx.Case) hx.Result {
 	}
 	sort.Strings(res.Tags)
 	return res
+}
+
+// scribble: the caller owns a returned slice and may do with it what it likes: every entry is overwritten and
+// the slice is appended to (which writes behind its length when it has spare capacity). A trie that handed out
+// something it still uses answers the next query wrongly.
+func scribble(res []generic.KeyValue[string, int]) {
+	for i := range res {
+		res[i] = generic.KeyValue[string, int]{Key: "\x00scribbled", Val: -1 - i}
+	}
+	res = append(res, generic.KeyValue[string, int]{Key: "\xffappended", Val: -99})
+	if len(res) < cap(res) {
+		res = res[:cap(res)]
+		for i := range res {
+			res[i].Val = -7
+		}
+	}
+}
+
+func collect(seq iter.Seq2[string, int]) []kv {
+	out := []kv{}
+	for k, v := range seq {
+		out = append(out, kv{k, v})
+	}
+	return out
 }
 
 func isASCII(s string) bool {
@@ -655,7 +785,7 @@ func parsePred(s string) func(string, int) bool {
 // selectBy: the held pairs on which p is `want`
 func (o *oracle) selectBy(p func(string, int) bool, want bool) *oracle {
 	r := newOracle()
-	for _, k := range o.keys {
+	for _, k := range o.ks() {
 		if p(k, o.val[k]) == want {
 			r.put(k, o.val[k])
 		}
@@ -704,12 +834,18 @@ func binaryHeight(keys []string) int {
 // its downward links): branch on the first position at which the keys differ, positions being the bits of the
 // zero-padded keys followed by one "has at least i bytes" position per byte.
 func critbitHeight(keys []string) int {
-	if len(keys) <= 1 {
-		return 0
-	}
 	maxLen := 0
 	for _, k := range keys {
 		maxLen = max(maxLen, len(k))
+	}
+	return critbitFrom(keys, 0, maxLen)
+}
+
+// critbitFrom: the keys agree on every position before `from` (positions beyond the longest key of a subset never
+// split it, so one numbering serves all subsets)
+func critbitFrom(keys []string, from, maxLen int) int {
+	if len(keys) <= 1 {
+		return 0
 	}
 	bit := func(k string, pos int) bool {
 		if pos < 8*maxLen {
@@ -720,7 +856,16 @@ func critbitHeight(keys []string) int {
 		}
 		return len(k) >= pos-8*maxLen+1
 	}
-	for pos := 0; pos < 9*maxLen; pos++ {
+	for pos := from; pos < 9*maxLen; pos++ {
+		ones := 0
+		for _, k := range keys {
+			if bit(k, pos) {
+				ones++
+			}
+		}
+		if ones == 0 || ones == len(keys) {
+			continue
+		}
 		var zero, one []string
 		for _, k := range keys {
 			if bit(k, pos) {
@@ -729,9 +874,7 @@ func critbitHeight(keys []string) int {
 				zero = append(zero, k)
 			}
 		}
-		if len(zero) > 0 && len(one) > 0 {
-			return 1 + max(critbitHeight(zero), critbitHeight(one))
-		}
+		return 1 + max(critbitFrom(zero, pos+1, maxLen), critbitFrom(one, pos+1, maxLen))
 	}
 	return 0
 }
@@ -758,7 +901,7 @@ func (o *oracle) checkTraverse(comp, order string, valid bool, stop int, got []k
 	} else {
 		all = append(all, kv{"", 0})
 		seen := map[string]bool{}
-		for _, k := range o.keys {
+		for _, k := range o.ks() {
 			for n := 1; n <= len(k); n++ {
 				if p := k[:n]; !seen[p] {
 					seen[p] = true
@@ -837,10 +980,10 @@ func (g *gen) randKey() string {
 // arg draws a query/delete argument: random, held, extension of held, prefix of held, (for queries) empty.
 func (g *gen) arg(allowEmpty bool) string {
 	x := g.r.Intn(100)
-	if len(g.held.keys) == 0 || x < 25 {
+	if len(g.held.ks()) == 0 || x < 25 {
 		return g.randKey()
 	}
-	h := hx.Pick(g.r, g.held.keys)
+	h := hx.Pick(g.r, g.held.ks())
 	switch {
 	case x < 55:
 		return h
@@ -910,7 +1053,7 @@ func (g *gen) traverse() {
 	}
 	stop := -1
 	if g.r.Bool() {
-		stop = g.r.Range(0, 2*len(g.held.keys)+2)
+		stop = g.r.Range(0, 2*len(g.held.ks())+2)
 	}
 	g.emit("traverse %s %d", o, stop)
 }
@@ -943,8 +1086,8 @@ func (g *gen) pairBattery() {
 	g.heldB = g.held.selectBy(parsePred("true"), true)
 	g.emit("equal")
 	g.emit("equalother")
-	if len(g.held.keys) > 0 {
-		h := hx.Pick(g.r, g.held.keys)
+	if len(g.held.ks()) > 0 {
+		h := hx.Pick(g.r, g.held.ks())
 		if h != "" {
 			v := g.held.val[h]
 			g.emit("put %s %d", enc(h), v+1)
@@ -979,10 +1122,10 @@ func (g *gen) mutate() {
 		if g.r.Chance(1, 3) {
 			k = g.arg(false) // re-put a held key, or put a prefix / an extension of one
 		}
-		if g.clash && len(g.held.keys) > 0 && g.r.Chance(1, 3) {
+		if g.clash && len(g.held.ks()) > 0 && g.r.Chance(1, 3) {
 			// aim at keys that differ by trailing 0x00 bytes only (D9e): a held key with 0x00 appended, or with its
 			// trailing 0x00 bytes removed
-			h := hx.Pick(g.r, g.held.keys)
+			h := hx.Pick(g.r, g.held.ks())
 			if t := trimNul(h); t != h && t != "" && g.r.Bool() {
 				k = t
 			} else {
@@ -998,13 +1141,13 @@ func (g *gen) mutate() {
 		g.held.del(k)
 	case x < 90:
 		g.emit("deletemin")
-		if len(g.held.keys) > 0 {
-			g.held.del(g.held.keys[0])
+		if len(g.held.ks()) > 0 {
+			g.held.del(g.held.ks()[0])
 		}
 	case x < 98:
 		g.emit("deletemax")
-		if len(g.held.keys) > 0 {
-			g.held.del(g.held.keys[len(g.held.keys)-1])
+		if len(g.held.ks()) > 0 {
+			g.held.del(g.held.ks()[len(g.held.ks())-1])
 		}
 	default:
 		g.emit("deleteall")
@@ -1014,7 +1157,11 @@ func (g *gen) mutate() {
 }
 
 func (g *gen) query() {
-	switch g.r.Intn(22) {
+	switch g.r.Intn(24) {
+	case 22:
+		g.emit("all2")
+	case 23:
+		g.emit("equalself")
 	case 15:
 		g.emit("isempty")
 	case 16:
@@ -1040,7 +1187,7 @@ func (g *gen) query() {
 	case 5:
 		g.emit("ceiling %s", enc(g.arg(true)))
 	case 6:
-		g.emit("select %d", g.r.Range(-1, len(g.held.keys)+1))
+		g.emit("select %d", g.r.Range(-1, len(g.held.ks())+1))
 	case 7:
 		g.emit("rank %s", enc(g.arg(true)))
 	case 8:
@@ -1062,16 +1209,18 @@ func (g *gen) query() {
 func (g *gen) battery() {
 	g.emit("size")
 	g.emit("all")
+	g.emit("all2")
+	g.emit("equalself")
 	g.emit("min")
 	g.emit("max")
 	for _, q := range []string{"get", "floor", "ceiling", "rank", "withprefix", "longestprefixof"} {
 		g.emit("%s %s", q, enc(g.arg(q != "get")))
 	}
-	g.emit("select %d", g.r.Range(-1, len(g.held.keys)))
+	g.emit("select %d", g.r.Range(-1, len(g.held.ks())))
 	g.emit("range %s %s", enc(g.arg(true)), enc(g.arg(true)))
 	g.emit("rangesize %s %s", enc(g.arg(true)), enc(g.arg(true)))
-	if len(g.held.keys) > 0 {
-		h := hx.Pick(g.r, g.held.keys)
+	if len(g.held.ks()) > 0 {
+		h := hx.Pick(g.r, g.held.ks())
 		for i := 0; i < len(h); i++ {
 			b := []byte(h)
 			b[i] = '*'
@@ -1108,7 +1257,7 @@ func (g *gen) variations(k string) []string {
 // variation of it; every one-letter extension for LongestPrefixOf; Match with a wildcard at each position of the key and
 // of its variations.
 func (g *gen) denseBattery(limit int) {
-	keys := g.held.keys
+	keys := g.held.ks()
 	if len(keys) > limit {
 		i := g.r.Intn(len(keys) - limit + 1)
 		keys = keys[i : i+limit]
@@ -1195,6 +1344,435 @@ func genOps(r *hx.Rand, alpha string, n int, clash bool) []string {
 	return g.ops
 }
 
+// ---------------------------------------------------------------- threshold sweeps (sizes at which code switches)
+
+// sweepSizes: the sizes programmers pick as thresholds (a uint64 mask, a uint8, a block, a uint16) and their
+// neighbours; used for the length of a key in bytes and for the number of held keys.
+var sweepSizes = []int{1, 2, 63, 64, 65, 255, 256, 257, 1023, 1024, 1025}
+
+func stars(n int) string { return strings.Repeat("*", n) }
+
+func starAt(k string, pos ...int) string {
+	b := []byte(k)
+	for _, i := range pos {
+		if i >= 0 && i < len(b) {
+			b[i] = '*'
+		}
+	}
+	return string(b)
+}
+
+func clip(s string, n int) string {
+	if n < 0 {
+		n = 0
+	}
+	if n > len(s) {
+		n = len(s)
+	}
+	return s[:n]
+}
+
+func uniq(xs []string) []string {
+	seen := map[string]bool{}
+	out := []string{}
+	for _, x := range xs {
+		if !seen[x] {
+			seen[x] = true
+			out = append(out, x)
+		}
+	}
+	return out
+}
+
+// keyLenOps: a trie whose longest keys have L-1, L and L+1 bytes and are prefixes / extensions of each other (plus a
+// sibling that differs in byte L only, an extension of the sibling and a few short prefixes), queried with WithPrefix,
+// LongestPrefixOf and Match arguments of L-2 … L+3 bytes and wildcards at positions 62 … 65, 254 … 257 and L-2 … L;
+// then the longest keys are deleted one by one (shrinking below L), put back (growing past L) and queried on each side.
+// weight 0: Put/Get/Delete/Size/Height only (the binary trie rebuilds every key byte by byte on every walk: one query
+// on a 64 KiB key takes a second); 1: the string queries and the ordered queries; 2: plus dumps, traversals and the
+// queries that print every key.
+func keyLenOps(r *hx.Rand, al []byte, L, weight int) []string {
+	g := &gen{r: r, al: al, maxLen: 4, held: newOracle()}
+	b := make([]byte, L+3)
+	uniform := r.Chance(1, 3)
+	for i := range b {
+		b[i] = hx.Pick(r, al)
+		if uniform {
+			b[i] = b[0] // one letter throughout: with 0x00 the keys differ in their length positions only
+		}
+	}
+	B := string(b)
+	c := al[0] // a letter other than byte L of B
+	for _, x := range al {
+		if x != B[L-1] {
+			c = x
+		}
+	}
+	sib := B[:L-1] + string(c)
+	keys := uniq([]string{B[:L], B[:L+1], sib, sib + B[L:L+1], clip(B, L-1), clip(B, 1), clip(B, 2), clip(B, L/2), clip(B, L-2) + string(c)})
+	r2 := r.Fork("order")
+	for i := len(keys) - 1; i > 0; i-- {
+		j := r2.Intn(i + 1)
+		keys[i], keys[j] = keys[j], keys[i]
+	}
+	put := func(k string) {
+		if k != "" {
+			v := r.Intn(100)
+			g.emit("put %s %d", enc(k), v)
+			g.held.put(k, v)
+			if weight >= 2 {
+				g.emit("dump")
+			}
+		}
+	}
+	del := func(k string) {
+		if k != "" {
+			g.emit("delete %s", enc(k))
+			g.held.del(k)
+			if weight >= 2 {
+				g.emit("dump")
+			}
+		}
+	}
+	strQueries := func() {
+		for _, p := range uniq([]string{clip(B, L-2), clip(B, L-1), B[:L], B[:L+1], B[:L+2], sib, sib + B[L:L+1], clip(B, 1), clip(B, L/2), clip(B, 64), clip(B, 256)}) {
+			g.emit("withprefix %s", enc(p))
+		}
+		for _, q := range uniq([]string{B, B[:L+2], B[:L+1], B[:L], clip(B, L-1), clip(B, L-2), sib + B[L:], sib, B[:L] + string(c), clip(B, L/2) + string(c), clip(B, 65), clip(B, 257)}) {
+			g.emit("longestprefixof %s", enc(q))
+		}
+		pats := []string{B[:L], starAt(B[:L], 0), starAt(B[:L], L-1), starAt(B[:L], L-2), starAt(B[:L+1], L), starAt(B[:L+1], L-1, L),
+			starAt(B[:L], 62), starAt(B[:L], 63), starAt(B[:L], 64), starAt(B[:L], 65), starAt(B[:L+1], 63, 64), starAt(B[:L], 254), starAt(B[:L], 255),
+			starAt(B[:L], 256), starAt(B[:L], 257), starAt(B[:L+1], 1023, 1024), clip(B, L-1) + "*", clip(B, L-1) + "**", "*" + B[1:L],
+			stars(L - 1), stars(L), stars(L + 1), stars(L + 2)}
+		if L > 64 { // every position from 64 on is a wildcard
+			pats = append(pats, B[:64]+stars(L-64), B[:64]+stars(L-63), B[:63]+stars(L-63))
+		}
+		for _, p := range uniq(pats) {
+			g.emit("match %s", enc(p))
+		}
+	}
+	ordQueries := func() {
+		g.emit("min")
+		g.emit("max")
+		for _, a := range uniq([]string{B[:L], B[:L] + string(c), B[:L+2], clip(B, L-1), sib}) {
+			g.emit("floor %s", enc(a))
+			g.emit("ceiling %s", enc(a))
+			g.emit("rank %s", enc(a))
+		}
+		for i := -1; i <= len(g.held.ks()); i++ {
+			g.emit("select %d", i)
+		}
+		g.emit("range %s %s", enc(clip(B, L-1)), enc(B[:L+1]))
+		g.emit("rangesize %s %s", enc(clip(B, 1)), enc(B[:L+2]))
+		g.emit("rangesize %s %s", enc(sib), enc(sib+B[L:]))
+	}
+	queries := func() {
+		g.emit("size")
+		g.emit("height")
+		for _, k := range uniq([]string{B[:L], B[:L+1], B[:L+2], clip(B, L-1), sib}) {
+			if k != "" {
+				g.emit("get %s", enc(k))
+			}
+		}
+		if weight >= 1 {
+			strQueries()
+			ordQueries()
+		}
+		if weight >= 2 {
+			g.emit("all")
+			g.emit("all2")
+			g.emit("equalself")
+			g.emit("withprefix -")
+			g.emit("traverse asc -1")
+			g.emit("traverse vlr %d", r.Range(1, 4))
+			g.emit("firstmatch klen:%d", L)
+			g.emit("anymatch klen:%d", L+1)
+			g.emit("allmatch kpre:%s", enc(clip(B, 1)))
+			g.emit("selectmatch klen:%d", L)
+			g.emit("equal")
+		}
+	}
+	// after a mutation: everything again, or (long keys: the binary trie and both Models rebuild every key byte by byte on
+	// every walk, and a 64 KiB argument is 128 KiB of text) the queries whose
+	// answer the mutation changes
+	again := queries
+	if L > 512 {
+		again = func() {
+			g.emit("size")
+			g.emit("get %s", enc(B[:L]))
+			g.emit("get %s", enc(B[:L+1]))
+			if weight >= 1 {
+				g.emit("longestprefixof %s", enc(B))
+				g.emit("longestprefixof %s", enc(sib+B[L:]))
+				g.emit("withprefix %s", enc(clip(B, L-1)))
+				g.emit("match %s", enc(stars(L)))
+				g.emit("match %s", enc(B[:64]+stars(L-63)))
+				g.emit("rank %s", enc(B[:L+1]))
+				g.emit("max")
+			}
+		}
+	}
+	for _, k := range keys {
+		put(k)
+	}
+	queries()
+	del(B[:L]) // a key that is a prefix and an extension of held keys
+	again()
+	del(B[:L+1]) // the longest held key now has L bytes (the sibling and its extension) or L-1
+	del(sib + B[L:L+1])
+	again()
+	put(B[:L]) // back to L, then past it
+	put(B[:L+2])
+	again()
+	if weight >= 1 {
+		g.emit("deletemax")
+		g.emit("deletemin")
+	}
+	g.emit("size")
+	if weight >= 1 {
+		g.emit("longestprefixof %s", enc(B))
+		g.emit("withprefix %s", enc(clip(B, L-1)))
+		g.emit("match %s", enc(stars(L)))
+	}
+	if weight >= 2 {
+		g.emit("dump")
+		g.emit("all")
+	}
+	return g.ops
+}
+
+// distinctKeys draws n distinct non-empty keys over the alphabet, as short as the alphabet allows (so that prefix
+// relations stay dense).
+func distinctKeys(r *hx.Rand, al []byte, n int) []string {
+	maxLen, room := 1, len(al)
+	for room < 3*n+8 {
+		maxLen++
+		room = room*len(al) + len(al)
+	}
+	seen := map[string]bool{}
+	out := make([]string, 0, n)
+	for len(out) < n {
+		b := make([]byte, r.Range(1, maxLen))
+		for i := range b {
+			b[i] = hx.Pick(r, al)
+		}
+		if k := string(b); !seen[k] {
+			seen[k] = true
+			out = append(out, k)
+		}
+	}
+	return out
+}
+
+// nKeysOps: N-1 keys are put (in random, ascending or descending order), then the N-th, the N+1-th and the N+2-th, each
+// followed by a battery of queries aimed at the ranks around every threshold; then three keys are deleted (back below
+// N), the battery again, DeleteMin / DeleteMax, the battery again. small: every battery is the full one, with a state
+// dump and the queries that print the whole trie. Otherwise (tens of thousands of keys; Rank, Floor and Ceiling of
+// both tries walk the whole trie) the full battery runs once, with exactly N keys, and the other sizes get the brief
+// one - unless `dense` (thorough tier).
+func nKeysOps(r *hx.Rand, al []byte, N int, small, dense bool) []string {
+	g := &gen{r: r, al: al, maxLen: 4, held: newOracle()}
+	keys := distinctKeys(r, al, N+3)
+	first := keys[:max(N-1, 0)]
+	switch r.Intn(3) {
+	case 0:
+		sort.Strings(first)
+	case 1:
+		sort.Sort(sort.Reverse(sort.StringSlice(first)))
+	}
+	put := func(k string, i int) {
+		g.emit("put %s %d", enc(k), i)
+		g.held.put(k, i)
+	}
+	low, high := string(al[0]), string(al[len(al)-1])
+	battery := func(full bool) {
+		ks := g.held.ks()
+		n := len(ks)
+		g.emit("size")
+		g.emit("isempty")
+		if full {
+			g.emit("height")
+		}
+		g.emit("min")
+		g.emit("max")
+		ranks := []int{-1, 0, n - 1, n}
+		if full {
+			ranks = append(ranks, n/2, n+1)
+			if small {
+				ranks = append(ranks, 1, 2, n-2)
+			}
+			for _, t := range []int{64, 256, 1024, 65536} {
+				if n >= t-2 && (small || t > 1024) {
+					ranks = append(ranks, t-2, t-1, t, t+1)
+				}
+			}
+		}
+		seen := map[int]bool{}
+		for _, i := range ranks {
+			if seen[i] || i < -1 || i > n+1 {
+				continue
+			}
+			seen[i] = true
+			g.emit("select %d", i)
+			if i >= 0 && i < n {
+				k := ks[i]
+				g.emit("get %s", enc(k))
+				g.emit("rank %s", enc(k))
+				if full {
+					absent := k + low // the successor of k among all strings over the alphabet, mostly absent
+					if small || i%2 == 0 {
+						g.emit("floor %s", enc(absent))
+						g.emit("rank %s", enc(absent))
+					}
+					if small || i%2 == 1 {
+						g.emit("ceiling %s", enc(absent))
+					}
+					g.emit("longestprefixof %s", enc(absent+high))
+				}
+			}
+		}
+		if !full {
+			return
+		}
+		if n >= 2 {
+			g.emit("rangesize %s %s", enc(ks[0]), enc(ks[n-1]))
+			g.emit("rangesize %s %s", enc(ks[1]), enc(ks[n-2]))
+			lo, hi := max(0, min(n-1, 60)), min(n-1, 70)
+			g.emit("range %s %s", enc(ks[lo]), enc(ks[hi]))
+			lo, hi = max(0, n-5), n-1
+			g.emit("range %s %s", enc(ks[lo]), enc(ks[hi]))
+			g.emit("rangesize %s %s", enc(ks[n/2]), enc(ks[n/3]))
+		}
+		for _, x := range al[:min(len(al), 2)] {
+			g.emit("withprefix %s", enc(string(x)+high))
+			g.emit("match %s", enc(string(x)+"**"))
+		}
+		g.emit("match %s", enc(stars(2)))
+		g.emit("match %s", enc(starAt(g.arg(false), 0)))
+		g.emit("longestprefixof %s", enc(g.arg(false)+low+low))
+		g.emit("traverse asc %d", hx.Pick(r, []int{1, 63, 64, 65, 255, 256, 257}))
+		g.emit("traverse desc %d", hx.Pick(r, []int{1, 63, 64, 65, 255, 256, 257}))
+		g.emit("anymatch klt:%s", enc(low))
+		g.emit("allmatch klt:%s", enc(high+high))
+		g.emit("firstmatch vmod:%d:%d", max(n, 1), max(n, 1)-1)
+		if small {
+			g.emit("dump")
+			g.emit("all")
+			g.emit("all2")
+			g.emit("equalself")
+			g.emit("withprefix -")
+			g.emit("withprefix %s", enc(low))
+			g.emit("traverse lvr -1")
+			g.emit("selectmatch vmod:2:0")
+			g.emit("equal")
+		}
+	}
+	for i, k := range first {
+		put(k, i)
+	}
+	battery(small || dense)
+	for j := max(N-1, 0); j < N+2; j++ {
+		put(keys[j], j)
+		battery(small || dense || j == N-1)
+	}
+	if !small {
+		// the whole content once: in ascending order, and copied by SelectMatch into the other register
+		g.emit("all")
+		g.emit("all2")
+		g.emit("equalself")
+		g.emit("selectmatch vmod:3:1")
+		g.emit("equal")
+		g.emit("swap")
+		g.emit("size")
+		g.emit("height")
+		g.emit("swap")
+	}
+	for j := 0; j < 3 && len(g.held.ks()) > 0; j++ {
+		k := hx.Pick(r, g.held.ks())
+		g.emit("delete %s", enc(k))
+		g.held.del(k)
+	}
+	battery(small || dense)
+	g.emit("deletemin")
+	if ks := g.held.ks(); len(ks) > 0 {
+		g.held.del(ks[0])
+	}
+	g.emit("deletemax")
+	if ks := g.held.ks(); len(ks) > 0 {
+		g.held.del(ks[len(ks)-1])
+	}
+	battery(small)
+	return g.ops
+}
+
+// sweepAlphabets: dense prefixes; bytes at both ends of the range (0x00: keys that differ in their length only);
+// four letters; arbitrary bytes with the wildcard character
+var sweepAlphabets = []string{"ab", "0001", "7fff", "abcd", "bytes"}
+
+func sweeps(run *hx.Run) {
+	r := run.R.Fork("sweeps")
+	rot := int(run.Seed % 1000)
+	pickAlpha := func(i int) string { return sweepAlphabets[(i+rot)%len(sweepAlphabets)] }
+	// a case of size S holds S-1 … S+2 (bytes, keys): the quick tier runs the sizes 0, 1, 2, 64, 256, 1024 (which cover
+	// 63-66, 255-258, 1023-1026), the thorough tier every size, each with every alphabet
+	reps, sizes := 1, []int{1, 2, 64, 256, 1024}
+	if run.Thorough() {
+		reps, sizes = len(sweepAlphabets), sweepSizes
+	}
+	one := func(comp, hdr string, ops []string, noModel bool) {
+		run.Do(comp, hx.Case{Header: "comp=" + comp + " " + hdr, Ops: ops, NoModel: noModel}, Exec)
+	}
+	for rep := 0; rep < reps; rep++ {
+		// ---- length of a key
+		for i, L := range sizes {
+			alpha := pickAlpha(i + rep)
+			both(run, fmt.Sprintf("alpha=%s stream=keylen len=%d", alpha, L), keyLenOps(r, alphabets[alpha], L, 2))
+		}
+		// ---- number of keys
+		for i, N := range append([]int{0}, sizes...) {
+			alpha := pickAlpha(i + rep + 2)
+			both(run, fmt.Sprintf("alpha=%s stream=nkeys n=%d", alpha, N), nKeysOps(r, alphabets[alpha], N, true, false))
+		}
+		// 4096 keys: the largest size at which both Models keep up with every query
+		alpha := pickAlpha(rep + 1)
+		both(run, fmt.Sprintf("alpha=%s stream=nkeys n=4096", alpha), nKeysOps(r, alphabets[alpha], 4096, false, false))
+	}
+	// ---- 64 KiB keys, judged by the oracle only (both Models rebuild keys byte by byte: minutes). Patricia trie: the
+	// string and ordered queries. Binary trie: Put/Get/Delete/Size/Height in the quick tier, the queries (about a second
+	// each: every walk rebuilds the key byte by byte) once in the thorough tier.
+	bigL := []int{65536}
+	if run.Thorough() {
+		bigL = []int{65535, 65536, 65537, 70000}
+	}
+	for i, L := range bigL {
+		alpha := pickAlpha(i)
+		hdr := fmt.Sprintf("alpha=%s stream=keylen len=%d", alpha, L)
+		one("patricia", hdr, keyLenOps(r, alphabets[alpha], L, 1), true)
+		w := 0
+		if run.Thorough() && i == 1 {
+			w = 1
+		}
+		one("binary", hdr, keyLenOps(r, alphabets[alpha], L, w), true)
+	}
+	// ---- 65535 … 70000 keys: one case walks through N-1, N, N+1, N+2 keys and back. The binary trie is compared with
+	// its Model; the Patricia Model copies its node array on every Put (a minute for 65536 keys): oracle only.
+	bigN := []int{65536}
+	if run.Thorough() {
+		bigN = []int{65535, 65536, 65537, 70000}
+	}
+	for i, N := range bigN {
+		alpha := pickAlpha(i + 3)
+		ops := nKeysOps(r, alphabets[alpha], N, false, run.Thorough() && i == 1)
+		hdr := fmt.Sprintf("alpha=%s stream=nkeys n=%d", alpha, N)
+		one("binary", hdr, ops, false)
+		one("patricia", hdr, ops, true)
+	}
+	run.Stats.Extra["threshold_sweeps"] = fmt.Sprintf("key length L and number of keys N at 0/1/2, 63-65, 255-257, 1023-1025 and N=4096 (%d alphabets each), compared with the Models; "+
+		"%v-byte keys (oracle only), %v keys (binary trie vs Model, Patricia trie oracle only); each case holds L-1/L/L+1-byte keys that are prefixes of "+
+		"each other (N-1 … N+2 keys), runs the battery, shrinks below the size, grows past it again", reps, bigL, bigN)
+}
+
 var comps = []string{"binary", "patricia"}
 
 // both runs one op stream on both implementations.
@@ -1236,7 +1814,7 @@ func exhaustive(alpha []string, n int, f func([]string)) {
 // histories and insertion orders).
 func fixedBattery(universe []string, x, y byte) []string {
 	X, Y := string(x), string(y)
-	ops := []string{"dump", "size", "all", "min", "max"}
+	ops := []string{"dump", "size", "all", "all2", "equalself", "min", "max"}
 	args := append([]string{""}, universe...)
 	for _, a := range args {
 		if a != "" {
@@ -1382,6 +1960,7 @@ func Main(run *hx.Run) {
 		}
 		run.Stats.Extra["insertion_orders"] = fmt.Sprintf("all ordered selections of up to %d of the keys x,y,xx,xy,yx,xyx for %d letter pairs, both tries", maxSet, len(pairs))
 	}
+	sweeps(run)
 	// keys equal up to trailing 0x00 bytes (D9e): the zero-padded bit strings coincide, only the length positions differ
 	for _, alpha := range []string{"bytes", "0001", "8000"} {
 		r := run.R.Fork("nul-" + alpha)
